@@ -19,11 +19,12 @@ Section CallsProofs.
 
   (** the loop respects the discipline from any state in which NameFromMessage has been called
       and all objects seen so far are numbered below [n] *)
-  Lemma loop_mcalls_ok oh (msg : wmsg P) : forall hs n hi ready,
+  Lemma loop_mcalls_ok oh trail (msg : wmsg P) : forall hs n handled hi ready,
     N.leb hi n = true ->
-    mcalls_run (name_from msg) (loop_mcalls oh msg hs n) true hi ready = true.
+    mcalls_run (name_from msg) (loop_mcalls oh trail msg hs n handled) true hi ready = true.
   Proof.
-    induction hs as [|[h b] hs IH]; intros n hi ready Hle; simpl; [reflexivity|].
+    induction hs as [|[h b] hs IH]; intros n handled hi ready Hle; simpl;
+      [now destruct (trail && negb handled)|].
     unfold Model.matches.
     destruct (N.eqb (name_from msg) (hname gen_name zero h)) eqn:En; simpl; [|now apply IH].
     assert (Hn : N.eqb (hname gen_name zero h) (name_from msg) = true) by now rewrite N.eqb_sym.
@@ -38,7 +39,7 @@ Section CallsProofs.
   Qed.
 
   Lemma one_is_loop oh (msg : wmsg P) hb n :
-    fst (fst (one_mcalls oh msg hb n)) = loop_mcalls oh msg [hb] n.
+    fst (fst (one_mcalls oh msg hb n)) = loop_mcalls oh false msg [hb] n false.
   Proof.
     simpl. destruct (one_mcalls oh msg hb n) as [[e n'] go]. simpl.
     destruct go; now rewrite app_nil_r.
@@ -46,8 +47,10 @@ Section CallsProofs.
 
   Definition as_loop (d : @delivery T) : list (handler T * hscript) := d_hs d.
 
+  Definition d_trail (cfg : pcfg) (d : @delivery T) : bool :=
+    match d with DGroup _ => negb (pc_ack_unknown cfg) | _ => false end.
   Lemma proc_mcalls_loop cfg (msg : wmsg P) d :
-    proc_mcalls cfg msg d = MNameFrom :: loop_mcalls (pc_onhandle cfg) msg (d_hs d) 0.
+    proc_mcalls cfg msg d = MNameFrom :: loop_mcalls (pc_onhandle cfg) (d_trail cfg d) msg (d_hs d) 0 false.
   Proof. destruct d as [h b|h b|hs]; unfold Calls.proc_mcalls; simpl d_hs; try reflexivity; now rewrite one_is_loop. Qed.
 
   (** the discipline holds for every delivery: NameFromMessage exactly once and first, Unmarshal
@@ -60,11 +63,11 @@ Section CallsProofs.
   Qed.
 
   (** the handlers Handle is called on are exactly the invocations of the event-level model *)
-  Lemma loop_mhandles oh (msg : wmsg P) : forall hs n,
-    mhandles (loop_mcalls oh msg hs n)
+  Lemma loop_mhandles oh trail (msg : wmsg P) : forall hs n handled,
+    mhandles (loop_mcalls oh trail msg hs n handled)
     = map fst (expected_calls dec oh msg (filter (fun hb => matches gen_name zero msg (fst hb)) hs)).
   Proof.
-    induction hs as [|[h b] hs IH]; intros n; simpl; [reflexivity|].
+    induction hs as [|[h b] hs IH]; intros n handled; simpl; [now destruct (trail && negb handled)|].
     destruct (matches gen_name zero msg h); simpl; [|apply IH].
     destruct (unmarshal dec msg (h_ty h)) as [v|]; simpl; [|reflexivity].
     unfold mhandles in *. rewrite flat_map_app, map_app.
